@@ -4,6 +4,7 @@ mod e15;
 mod e16;
 mod e2;
 mod e4;
+mod e6;
 mod families;
 mod oracle;
 mod plans;
@@ -30,6 +31,15 @@ fn main() {
         usage();
     }
     let pass = if cfg!(debug_assertions) { "dbg" } else { "release" };
+    if args[1] == "C06" || args[1] == "C06-child" || (args[1] == "replay" && args.get(2).map_or(false, |p| p.contains("/C06/"))) {
+        // must happen before the first ahash RandomState is created
+        e6::install_seed_source();
+    }
+    if args[1] == "C06-child" {
+        let tier = if args.get(2).map(|s| s.as_str()) == Some("thorough") { Tier::Thorough } else { Tier::Quick };
+        println!("{:016x}", e6::child_digest(&tier));
+        return;
+    }
     if args[1] == "selfcheck" {
         match oracle::self_check() {
             Ok(()) => {
